@@ -564,14 +564,24 @@ def oracle_capacity(s, r):
             if int(kv['sb']) > cap:
                 bad.append(fail(s, r, 'after an async from the main program rank %d holds %s unsent bytes, capacity is %d' % (rk, kv['sb'], cap)))
                 break
+    # real wire sizes of the messages (hook originate: header + body bytes as appended to the send buffer), so that a change of the
+    # wire layout that still round-trips does not turn into a false alarm here; the modelled sizes are compared at model level
+    realw = {}
+    for step, rk, seq, tag, rest in r['notes']:
+        if tag == 'OR':
+            kv = parse_kv(rest)
+            realw.setdefault(rk, []).append(int(kv.get('hdr', 0)) + int(kv.get('body', 0)))
     if s.kind == 'stream':
         snd = s.meta['stream']['sender']
-        bound = 2 * cap + s.meta['stream']['maxwire']
+        one = max(realw.get(snd, []) + [0]) or s.meta['stream']['maxwire']
+        if one != s.meta['stream']['maxwire']:
+            bad.append(fail(s, r, 'the largest message of the streaming rank takes %d wire bytes, the model says %d' % (one, s.meta['stream']['maxwire']), level='model'))
+        bound = 2 * cap + one
         for step, rk, seq, tag, rest in r['notes']:
             if tag == 'S' and rk == snd:
                 kv = parse_kv(rest)
                 if int(kv['pend']) > bound:
-                    bad.append(fail(s, r, 'streaming rank has %s bytes posted-but-incomplete, bound is 2*%d + %d' % (kv['pend'], cap, s.meta['stream']['maxwire'])))
+                    bad.append(fail(s, r, 'streaming rank has %s bytes posted-but-incomplete, bound is 2*%d + %d' % (kv['pend'], cap, one)))
                     break
         # the coordinator's view: bytes posted and not yet complete
         inflight, worst = {}, 0
@@ -589,13 +599,16 @@ def oracle_capacity(s, r):
         b = s.meta['batch']
         bi = [st for st, rk, seq, tag, rest in r['notes'] if tag == 'BI' and rk == b['sender']]
         mine = [p for p in r['posts'] if p[1] == 'POST' and p[3] == b['sender'] and p[6] > 0]
-        early = [p for p in mine if bi and p[0] < bi[0]]
-        if early:
-            bad.append(fail(s, r, 'a batch of %d wire bytes (capacity %d) was put on the wire before the flush point: %d physical send(s) before barrier()' % (b['wire'], cap, len(early))))
-        elif len(mine) != 1:
-            bad.append(fail(s, r, 'a batch to one destination that fits the capacity (%d of %d bytes) travelled as %d physical sends' % (b['wire'], cap, len(mine)), sends=[(p[4], p[6]) for p in mine]))
-        elif mine[0][6] != b['wire']:
-            bad.append(fail(s, r, 'the single physical send carries %d bytes, the batch has %d' % (mine[0][6], b['wire'])))
+        total = sum(p[6] for p in mine)
+        if total != b['wire']:
+            bad.append(fail(s, r, 'the batch takes %d wire bytes, the model says %d' % (total, b['wire']), level='model'))
+        if total <= cap:
+            # the premise of the clause holds on the real sizes: the batch fits the capacity
+            early = [p for p in mine if bi and p[0] < bi[0]]
+            if early:
+                bad.append(fail(s, r, 'a batch of %d wire bytes (capacity %d) was put on the wire before the flush point: %d physical send(s) before barrier()' % (total, cap, len(early))))
+            elif len(mine) != 1:
+                bad.append(fail(s, r, 'a batch to one destination that fits the capacity (%d of %d bytes) travelled as %d physical sends' % (total, cap, len(mine)), sends=[(p[4], p[6]) for p in mine]))
     return bad
 
 def oracle_layout(s, r):
@@ -611,7 +624,7 @@ def oracle_layout(s, r):
                    'r2n': ''.join('%d,' % (x // p) for x in range(s.n)), 'r2l': ''.join('%d,' % (x % p) for x in range(s.n))}
             for k, v in exp.items():
                 if kv.get(k) != v:
-                    bad.append(fail(s, r, 'layout table %s on rank %d is %s, block placement gives %s' % (k, rk, kv.get(k), v)))
+                    bad.append(fail(s, r, 'layout table %s on rank %d is %s, block placement gives %s' % (k, rk, kv.get(k), v), level='model'))
                     break
     return bad
 
